@@ -41,6 +41,7 @@ pub const SLATE_MUTATIONS: &[&str] = &[
 	"proof_raddr_rand",
 	"proof_saddr_rand",
 	"proof_sig_other",
+	"proof_resign_other",
 	"kernel_features",
 	"com_drop",
 	"com_dup",
@@ -289,6 +290,43 @@ pub fn mutate_slate(ex: &Exec, m: usize, kind: &str, arg: u64) -> Option<Slate> 
 				return None;
 			}
 			p.receiver_signature = Some(other);
+		}
+		"proof_resign_other" => {
+			// a Byzantine recipient substitutes its own address and signs the correct
+			// message (actual amount, final excess, sender address) with its own key
+			use byteorder::{BigEndian, WriteBytesExt};
+			use ed25519_dalek::Signer;
+			let parent = ex.msgs[m].parent?;
+			let s1 = &ex.msgs[parent].slate;
+			let p0 = s.payment_proof.clone()?;
+			if s1.participant_data.is_empty() || s.participant_data.is_empty() {
+				return None;
+			}
+			let excess = {
+				let secp = static_secp_instance();
+				let secp = secp.lock();
+				let sum = PublicKey::from_combination(
+					&secp,
+					vec![
+						&s1.participant_data[0].public_blind_excess,
+						&s.participant_data[0].public_blind_excess,
+					],
+				)
+				.ok()?;
+				grin_util::secp::pedersen::Commitment::from_pubkey(&secp, &sum).ok()?
+			};
+			let mut r = SimRng::new(arg ^ 0xbad5);
+			let sk = ed25519_dalek::SecretKey::from_bytes(&r.bytes(32)).ok()?;
+			let pk: ed25519_dalek::PublicKey = (&sk).into();
+			let kp = ed25519_dalek::Keypair { public: pk, secret: sk };
+			let mut msg = Vec::new();
+			msg.write_u64::<BigEndian>(s1.amount).ok()?;
+			msg.extend_from_slice(&excess.0);
+			msg.extend_from_slice(&p0.sender_address.to_bytes());
+			let sig = kp.sign(&msg);
+			let p = s.payment_proof.as_mut()?;
+			p.receiver_address = pk;
+			p.receiver_signature = Some(sig);
 		}
 		"kernel_features" => {
 			let n = (1 + arg % 4) as u8;
